@@ -15,8 +15,9 @@ import (
 var c15Tokens = []string{"%w", "%v", "%d", "%s", "lit‹", "%%", "%5w", "%-8w", "%[1]w", "%[2]w", "%+w", "%[3]w", "%x"}
 
 // c15Operand builds operand kind k.
-//  0 error(Σ text)  1 wrapping error  2 nil  3 int  4 Σ string
-//  5 Safe(error)  6 Unsafe(error)  7 nil-receiver error pointer  8 struct  9 []error
+//
+//	0 error(Σ text)  1 wrapping error  2 nil  3 int  4 Σ string
+//	5 Safe(error)  6 Unsafe(error)  7 nil-receiver error pointer  8 struct  9 []error
 func c15Operand(k int, s string) (v interface{}, isErr bool, inner error) {
 	switch k {
 	case 0:
